@@ -54,10 +54,17 @@ type kase struct {
 	SendRep string `json:"send_rep"` // gen | dyn
 	RecvRep string `json:"recv_rep"`
 	Fill    string `json:"fill"` // spec whose content pre-populates every receive destination ("" = empty destination)
+	// what the handler does with the objects it is given and the objects it returns (handlers.go):
+	// "" builds a new response for every call | echo | kept; the last two with Dir "resp" only
+	Handler string `json:"handler,omitempty"`
 }
 
 func (k kase) key() string {
-	return strings.Join([]string{k.Cloner, k.Kind, k.Dir, k.Shape, k.SendRep + ">" + k.RecvRep, "fill=" + k.Fill}, "|")
+	parts := []string{k.Cloner, k.Kind, k.Dir, k.Shape, k.SendRep + ">" + k.RecvRep, "fill=" + k.Fill}
+	if k.Handler != "" {
+		parts = append(parts, "handler="+k.Handler)
+	}
+	return strings.Join(parts, "|")
 }
 
 func clientStreams(kind string) bool { return kind == "client-stream" || kind == "bidi" }
@@ -65,6 +72,12 @@ func serverStreams(kind string) bool { return kind == "server-stream" || kind ==
 
 // count of messages in the direction under test
 func (k kase) count() int {
+	if k.Handler == "echo" {
+		return 1 // one request, answered with the object it was received into
+	}
+	if k.Handler == "kept" {
+		return 2 // two calls answered with one and the same object
+	}
 	if (k.Dir == "req" && clientStreams(k.Kind)) || (k.Dir == "resp" && serverStreams(k.Kind)) {
 		return 2
 	}
@@ -93,6 +106,9 @@ type run struct {
 	snap      []proto.Message // their content when handed to the library
 	snapCanon [][]byte
 	R         []interface{} // the receiver's objects
+	Q         []interface{} // handler=echo: the caller's request objects (handlers.go)
+	qCanon    [][]byte
+	kept      interface{} // handler=kept: the object the handler answers every call with
 
 	tok    chan int
 	abort  chan struct{}
@@ -136,13 +152,15 @@ func (r *run) newS() interface{} {
 	return s
 }
 
-func (r *run) newDest() interface{} {
+func (r *run) newDest() interface{} { return r.newDestRep(r.k.RecvRep) }
+
+func (r *run) newDestRep(rep string) interface{} {
 	if r.k.Fill != "" {
-		return specByName[r.k.Fill].instance(r.k.RecvRep)
+		return specByName[r.k.Fill].instance(rep)
 	}
 	g := r.spec.build()
 	proto.Reset(g)
-	if r.k.RecvRep == "dyn" {
+	if rep == "dyn" {
 		return asDyn(g)
 	}
 	return g
@@ -253,6 +271,7 @@ func mutatedLike(got, snap proto.Message) (via []string) {
 
 // afterCall: both sides kept their objects; the call is over.
 func (r *run) afterCall() {
+	r.afterCallHandler()
 	for i := range r.S {
 		if i >= len(r.R) {
 			break
@@ -300,10 +319,21 @@ func (r *run) unaryHandler(ctx context.Context, dec func(interface{}) error) (re
 		r.received(d, true)
 		return other(), nil
 	}
+	if r.k.Handler == "echo" {
+		h := r.newDestRep(r.k.SendRep)
+		if err := dec(h); err != nil {
+			r.fail("request decoding failed: " + err.Error())
+			return nil, err
+		}
+		return r.keepS(h), nil // the very object the request was decoded into; the handler keeps it
+	}
 	var in wrapperspb.StringValue
 	if err := dec(&in); err != nil {
 		r.fail("request decoding failed: " + err.Error())
 		return nil, err
+	}
+	if r.k.Handler == "kept" {
+		return r.keepS(r.keptObject()), nil
 	}
 	return r.newS(), nil // the handler keeps the object it returns
 }
@@ -311,8 +341,12 @@ func (r *run) unaryHandler(ctx context.Context, dec func(interface{}) error) (re
 func (r *run) streamHandler(ss grpc.ServerStream) (err error) {
 	defer r.guard("the stream handler", &err)
 	// requests
+	var h interface{} // handler=echo: the object the last request was received into
 	for i := 0; ; i++ {
 		var d interface{} = &wrapperspb.StringValue{}
+		if r.k.Handler == "echo" {
+			d = r.newDestRep(r.k.SendRep)
+		}
 		if r.k.Dir == "req" {
 			if i < r.k.count() && !r.awaitToken() {
 				return status.Error(codes.Aborted, "aborted")
@@ -330,6 +364,7 @@ func (r *run) streamHandler(ss grpc.ServerStream) (err error) {
 		if r.k.Dir == "req" {
 			r.received(d, true)
 		}
+		h = d
 		if !clientStreams(r.k.Kind) {
 			break
 		}
@@ -347,7 +382,12 @@ func (r *run) streamHandler(ss grpc.ServerStream) (err error) {
 			}
 			continue
 		}
-		s := r.newS()
+		s := h
+		if r.k.Handler == "echo" {
+			r.keepS(h)
+		} else {
+			s = r.newS()
+		}
 		if err := ss.SendMsg(s); err != nil {
 			r.fail("handler SendMsg failed: " + err.Error())
 			return err
@@ -382,12 +422,14 @@ func (r *run) client(cc grpc.ClientConnInterface) {
 			}
 			return
 		}
-		d := r.newDest()
-		if err := cc.Invoke(ctx, "/verif.C06/Unary", other(), d); err != nil {
-			r.fail("Invoke failed: " + err.Error())
-			return
+		for i := 0; i < r.k.count(); i++ {
+			d := r.newDest()
+			if err := cc.Invoke(ctx, "/verif.C06/Unary", r.request(), d); err != nil {
+				r.fail("Invoke failed: " + err.Error())
+				return
+			}
+			r.received(d, false)
 		}
-		r.received(d, false)
 		return
 	}
 	method := map[string]string{"client-stream": "ClientStream", "server-stream": "ServerStream", "bidi": "Bidi"}[r.k.Kind]
@@ -402,7 +444,7 @@ func (r *run) client(cc grpc.ClientConnInterface) {
 	}
 	for i := 0; i < n; i++ {
 		if r.k.Dir != "req" {
-			if err := cs.SendMsg(other()); err != nil {
+			if err := cs.SendMsg(r.request()); err != nil {
 				r.fail("client SendMsg failed: " + err.Error())
 				return
 			}
@@ -496,7 +538,7 @@ func runCase(k kase) (o outcome) {
 		o.Findings = r.findings // a panic, if any, is still reported
 		return
 	}
-	if len(r.R) != k.count() || len(r.S) != k.count() {
+	if len(r.R) != k.count() || len(r.S) != k.count() || (k.Handler == "echo" && len(r.Q) != k.count()) {
 		o.Internal = fmt.Sprintf("case %s: %d messages sent, %d received, expected %d", k.key(), len(r.S), len(r.R), k.count())
 		return
 	}
